@@ -264,7 +264,7 @@ pub fn check(case: &Case, env: &mut CaseEnv) -> Result<(), Failure> {
 }
 
 pub fn shard(ctx: &mut Ctx) {
-    let (tables, max_rows, nq) = ctx.tier.pick((1000, 50, 8), (30000, 300, 16));
+    let (tables, max_rows, nq) = ctx.tier.pick((2000, 50, 8), (30000, 300, 16));
     let n = ctx.share(tables);
     ctx.drive("layouts", case_strategy(max_rows, nq), n, check);
 }
